@@ -34,6 +34,7 @@ RULE += '; many other specialisations of the generic class may come and go befor
 RULE += '; an instance with a MISSING attribute is compared with one that has a value there'
 RULE += '; nested mutation also through mapping values; a class with bounded type variables (enumerated)'
 RULE += "; plain assignment to attributes that hold MISSING; aliases that spell their parameter like the class's type parameter"
+RULE += '; rendering (str / repr / format) one of two equal instances; the same argument objects given again after a mutation'
 LEVEL_TEXT = (
     "Invariant checking over generated histories: a deep-frozen snapshot of the instance must be unchanged after every "
     "attempt; updated() is compared attribute-by-attribute with the conformance oracle's stored form; equality is "
@@ -265,6 +266,47 @@ def run_case(case) -> Outcome:
             except Exception:  # noqa: BLE001 - rejection is the expected behaviour
                 pass
             unchanged(o)
+        elif o == "rebuild":
+            # the very same argument OBJECTS are given again (a buffer that is filled, handed over, refilled and handed over
+            # again) - to the constructor or to updated(): the new instance is what fresh, equal arguments would give
+            import copy as _copy
+
+            try:
+                fresh_args = _copy.deepcopy(originals)
+            except Exception:  # noqa: BLE001 - arguments that cannot be copied: no reference to compare with
+                continue
+
+            def attempt(make):
+                try:
+                    return ("ok", freeze(make()))
+                except Exception as exc:  # noqa: BLE001 - rejection is an outcome
+                    return ("rejected", type(exc).__name__)
+
+            via_updated = op.get("via") == "updated"
+            want = attempt(lambda: x.updated(**fresh_args) if via_updated else C(**fresh_args))
+            try:
+                again = _copy.deepcopy(fresh_args)
+            except Exception:  # noqa: BLE001
+                continue
+            if attempt(lambda: x.updated(**again) if via_updated else C(**again)) != want:
+                # values that only compare by identity (a plain object()): equal fresh arguments do not exist - no reference
+                out.unspecified.append("rebuild-without-a-stable-reference")
+                continue
+            got = attempt(lambda: x.updated(**originals) if via_updated else C(**originals))
+            classes.add("same-argument-objects-again")
+            if want[0] != got[0] or (want[0] == "ok" and want[1] != got[1]):
+                sub = "updated" if via_updated else "construct"
+                out.violate(sub, f"C04.{sub}/same-argument-objects-given-again-differ-from-equal-fresh-ones", f"{src}args={case['args']}\nwith the same objects: {got}\nwith equal fresh objects: {want}")
+            unchanged("rebuild")
+        elif o == "render":
+            # the instance is rendered (logged, printed, shown in a debugger): looking at a value does not change it
+            for fn in (str, repr, format):
+                try:
+                    fn(x)
+                except Exception:  # noqa: BLE001 - how an instance renders is not the subject
+                    pass
+            classes.add("rendered")
+            unchanged("render")
         elif o == "mutate_arg":
             name = names[op["attr"] % len(names)]
             obj = originals.get(name)
@@ -574,8 +616,18 @@ def strategy(tier):
             return TT.gen_value(draw, attrs[i]["term"], ctx)
 
         script = []
+        rebuild_after = [False]
         for _ in range(draw(st.integers(3, 8))):
-            kind = draw(st.sampled_from(["setattr", "delattr", "mutate_arg", "mutate_arg", "updated", "updated", "copy", "deepcopy", "eq", "eq", "inplace", *(["churn"] if cls["generic"] else [])]))
+            if rebuild_after[0]:
+                rebuild_after[0] = False
+                script.append({"o": "rebuild", "via": draw(st.sampled_from(["construct", "updated"]))})
+            kind = draw(st.sampled_from(["setattr", "delattr", "mutate_arg", "mutate_arg", "updated", "updated", "copy", "deepcopy", "eq", "eq", "inplace", "render", *(["churn"] if cls["generic"] else [])]))
+            if kind == "mutate_arg" and draw(st.booleans()):
+                rebuild_after[0] = True
+            if kind == "render":
+                script.append({"o": "render"})
+                script.append({"o": "eq", "other": "twin", "attr": 0, "val": None})
+                continue
             if kind == "churn":
                 script.append({"o": "churn", "n": draw(st.sampled_from([3, 40, 140, 300]))})
                 script.append({"o": "eq", "other": "twin", "attr": 0, "val": None})
